@@ -49,25 +49,41 @@ impl DcpsDomainParticipant {
             QosKind::Specific(q) => q,
         };
 
-        let publisher_handle = InstanceHandle::new([
-            self.domain_participant.instance_handle[0],
-            self.domain_participant.instance_handle[1],
-            self.domain_participant.instance_handle[2],
-            self.domain_participant.instance_handle[3],
-            self.domain_participant.instance_handle[4],
-            self.domain_participant.instance_handle[5],
-            self.domain_participant.instance_handle[6],
-            self.domain_participant.instance_handle[7],
-            self.domain_participant.instance_handle[8],
-            self.domain_participant.instance_handle[9],
-            self.domain_participant.instance_handle[10],
-            self.domain_participant.instance_handle[11],
-            self.publisher_counter,
-            0,
-            0,
-            USER_DEFINED_WRITER_GROUP,
-        ]);
-        self.publisher_counter += 1;
+        // The counter wraps around: skip the values still used by an existing publisher
+        let mut remaining_attempts = u8::MAX as usize + 1;
+        let publisher_handle = loop {
+            let candidate_handle = InstanceHandle::new([
+                self.domain_participant.instance_handle[0],
+                self.domain_participant.instance_handle[1],
+                self.domain_participant.instance_handle[2],
+                self.domain_participant.instance_handle[3],
+                self.domain_participant.instance_handle[4],
+                self.domain_participant.instance_handle[5],
+                self.domain_participant.instance_handle[6],
+                self.domain_participant.instance_handle[7],
+                self.domain_participant.instance_handle[8],
+                self.domain_participant.instance_handle[9],
+                self.domain_participant.instance_handle[10],
+                self.domain_participant.instance_handle[11],
+                self.publisher_counter,
+                0,
+                0,
+                USER_DEFINED_WRITER_GROUP,
+            ]);
+            self.publisher_counter = self.publisher_counter.wrapping_add(1);
+            if !self
+                .domain_participant
+                .user_defined_publisher_list
+                .iter()
+                .any(|x| x.instance_handle == candidate_handle)
+            {
+                break candidate_handle;
+            }
+            remaining_attempts -= 1;
+            if remaining_attempts == 0 {
+                return Err(DdsError::OutOfResources);
+            }
+        };
         let data_writer_list = Default::default();
         let listener_sender = dcps_listener.map(|l| l.spawn(&runtime.spawner()));
         let mut publisher = PublisherEntity::new(
@@ -139,25 +155,41 @@ impl DcpsDomainParticipant {
             QosKind::Default => self.domain_participant.default_subscriber_qos.clone(),
             QosKind::Specific(q) => q,
         };
-        let subscriber_handle = InstanceHandle::new([
-            self.domain_participant.instance_handle[0],
-            self.domain_participant.instance_handle[1],
-            self.domain_participant.instance_handle[2],
-            self.domain_participant.instance_handle[3],
-            self.domain_participant.instance_handle[4],
-            self.domain_participant.instance_handle[5],
-            self.domain_participant.instance_handle[6],
-            self.domain_participant.instance_handle[7],
-            self.domain_participant.instance_handle[8],
-            self.domain_participant.instance_handle[9],
-            self.domain_participant.instance_handle[10],
-            self.domain_participant.instance_handle[11],
-            self.subscriber_counter,
-            0,
-            0,
-            USER_DEFINED_READER_GROUP,
-        ]);
-        self.subscriber_counter += 1;
+        // The counter wraps around: skip the values still used by an existing subscriber
+        let mut remaining_attempts = u8::MAX as usize + 1;
+        let subscriber_handle = loop {
+            let candidate_handle = InstanceHandle::new([
+                self.domain_participant.instance_handle[0],
+                self.domain_participant.instance_handle[1],
+                self.domain_participant.instance_handle[2],
+                self.domain_participant.instance_handle[3],
+                self.domain_participant.instance_handle[4],
+                self.domain_participant.instance_handle[5],
+                self.domain_participant.instance_handle[6],
+                self.domain_participant.instance_handle[7],
+                self.domain_participant.instance_handle[8],
+                self.domain_participant.instance_handle[9],
+                self.domain_participant.instance_handle[10],
+                self.domain_participant.instance_handle[11],
+                self.subscriber_counter,
+                0,
+                0,
+                USER_DEFINED_READER_GROUP,
+            ]);
+            self.subscriber_counter = self.subscriber_counter.wrapping_add(1);
+            if !self
+                .domain_participant
+                .user_defined_subscriber_list
+                .iter()
+                .any(|x| x.instance_handle == candidate_handle)
+            {
+                break candidate_handle;
+            }
+            remaining_attempts -= 1;
+            if remaining_attempts == 0 {
+                return Err(DdsError::OutOfResources);
+            }
+        };
 
         let listener_sender = dcps_listener.map(|l| l.spawn(&runtime.spawner()));
         let mut subscriber = UserDefinedSubscriber::new(
